@@ -4,6 +4,7 @@ import itertools
 from tfv import absint as A
 from tfv import stdmodel as S
 from tfv.tast import walk, walk_with_ctx, strip, ekey, calls_in
+from tfv.prov import Scope
 from . import rk3, panic_audit, tymodel as T
 
 EXPLANATION = ("r1 inventory: every panic-capable construct (unwrap/expect, indexing, panic-family macros and asserts, "
@@ -37,6 +38,44 @@ def guards(C, R):
         R.check(ok, "r2", "G-VALIDATE", C.loc(m["sp"]),
                 "make_ir_for_query must start with `validate_query_against_schema(schema, query)?`: the lowering code indexes the "
                 "schema with names from the query and relies on them having been validated")
+    # G-ROOT-IS-EDGE: validate_field accepts `__typename` without looking it up in the schema (it exists on every type as a
+    # *property*); the root field is lowered as an edge, so the meta field must be refused at the root before that
+    v = C.fn(FE + "validation::validate_query_against_schema")
+    if v is None:
+        R.fail("r2", "anchor:validate_query_against_schema", "-", "validate_query_against_schema not found")
+    else:
+        pos = {id(n): i for i, (n, _) in enumerate(walk_with_ctx(v["body"]))}
+        guard = None
+        for n in walk(v["body"]):
+            if n.get("k") == "if" and "root_field" in ekey(n["cond"]) and "TYPENAME_META_FIELD" in ekey(n["cond"]) and \
+                    any(x.get("k") == "ret" and strip(x.get("e", {})).get("variant") == "Err" for x in walk(n["then"])):
+                guard = n
+        call = next((n for n in walk(v["body"]) if n.get("k") == "call" and (n.get("callee") or "").endswith("validate_field")), None)
+        R.check(guard is not None and call is not None and pos[id(guard)] < pos[id(call)], "r2", "G-ROOT-IS-EDGE", C.loc(v["sp"]),
+                "validate_query_against_schema must refuse a root field named __typename before validate_field: validate_field accepts the "
+                "meta field without a schema lookup, and get_edge_definition_from_schema then runs into unreachable!() (`{ __typename }`)")
+    # G-DUP-VERTICES: the vertex map handed to make_duplicated_output_names_error must also hold the vertices of fold components
+    # (a fold's count output refers to the fold's root vertex): it has to come from collect_ir_vertices(_recursive_step)
+    sites = []
+    for f in C.fns:
+        if not f["path"].startswith(FE) or "::tests" in f["path"]:
+            continue
+        for n in walk(f["body"]):
+            if n.get("k") == "call" and (n.get("callee") or "").endswith("make_duplicated_output_names_error"):
+                sites.append((f, n))
+    R.floor("r2", "make_duplicated_output_names_error call sites", len(sites), 2)
+    for f, n in sites:
+        sc = Scope(C, f)
+        arg = strip(n["args"][0])
+        toks = sc.tokens(arg)
+        okv = any(t.startswith("call:") and "collect_ir_vertices" in t for t in toks)
+        if not okv and arg.get("k") == "local":
+            # `let mut all = ir_vertices.clone(); for fold in .. { collect_ir_vertices_recursive_step(&mut all, ..) }`
+            okv = any(c.get("k") == "call" and "collect_ir_vertices" in (c.get("callee") or "") and
+                      any(x.get("k") == "local" and x.get("bid") == arg["bid"] for a in c["args"] for x in walk(a)) for c in calls_in(f["body"]))
+        R.check(okv, "r2", "G-DUP-VERTICES/%s" % f["path"].split("::")[-1], C.loc(n["sp"]),
+                "the vertex map given to make_duplicated_output_names_error does not include the vertices of fold components: a duplicate "
+                "output name that involves a fold's count output indexes a missing vertex (frontend panic)")
     # G-ROOT-DIRECTIVES
     p = C.fn("trustfall_core::graphql_query::query::parse_document")
     if p is None:
